@@ -87,7 +87,9 @@ func UploadPack(
 
 	r = ioutil.NewContextReadCloser(ctx, r)
 
-	rd := bufio.NewReader(r)
+	// PeekLine looks at a whole packet in the buffer: it has to hold one of
+	// the maximal size, the default 4096 bytes refuse a longer first line.
+	rd := bufio.NewReaderSize(r, pktline.MaxSize)
 
 	v := ProtocolVersion(opts.GitProtocol)
 	if v == protocol.V2 {
